@@ -585,6 +585,11 @@ pub fn run_property(prop: &dyn Property, opts: &RunOpts) -> i32 {
         );
         return 2;
     }
-    println!("HELD property={} on everything observed", id);
+    let known_hits = out_lines.iter().filter(|l| l.starts_with("KNOWN-FINDING")).count();
+    if known_hits > 0 {
+        println!("HELD property={} on everything observed apart from {} listed known finding(s)", id, known_hits);
+    } else {
+        println!("HELD property={} on everything observed", id);
+    }
     0
 }
